@@ -615,6 +615,20 @@ class Ghost:
         d = self.vc_lazy_dict([args[0], BuiltinFn("true", lambda I, a, k, n: True), args[1] if len(args) > 1 else kwargs.get("gen_key")], {}, node)
         return LazySetV(d)
 
+    def vc_snapshot(self, args, kwargs, node):
+        """vc.snapshot(name1=obj1, ...): shallow states of everything mutable that hangs off
+        the given objects of repository classes (frames: see vc.changed)"""
+        from .loopcut import heap_snapshot
+
+        return ("snapshot", heap_snapshot(self.I, None, (), [(v, k) for k, v in kwargs.items()]))
+
+    def vc_changed(self, args, kwargs, node):
+        """vc.changed(snap): sorted paths (e.g. 'ts.store[...]') of the objects that are not
+        in the state the snapshot recorded"""
+        from .loopcut import frame_violations
+
+        return ListV(frame_violations(self.I, args[0][1]))
+
     def vc_fields(self, args, kwargs, node):
         """vc.fields(obj): attribute name -> value of an instance, as a dict (frames: 'nothing
         else of the object changed')"""
